@@ -9,7 +9,8 @@ from . import c14
 ID = "C16"
 BUDGET = {"quick": 3000, "thorough": 60000}
 RULE = ("scenario = one real threading Scheduler with a batch of n = 1-6 due jobs and n_threads m in {0, 1, 2, n-1, n, n+1}, callbacks "
-        "that fail (20%) or rendezvous on an n-party barrier (only when m = 0 or m >= n), optionally max_exec with force_exec_all, "
+        "that fail (20%), rendezvous on an n-party barrier (only when m = 0 or m >= n) or wait for a later job of the batch to be "
+        "entered (only when m = 0 or m >= 2: a free worker has to take that job from the queue), optionally max_exec with force_exec_all, "
         "optionally a second caller thread running exec_jobs on the same jobs; all worker interleavings are scheduled by the "
         "controller (seeded random / PCT; in 30-70% with thread switches at every source line of the worker loop, Job._exec and the "
         "rescheduling code); Spec: every selected job invoked exactly once, all invocations finished when exec_jobs "
@@ -37,7 +38,13 @@ def scenarios(rng, n, tier):
             elif rng.random() < 0.2:
                 o["raises"] = True
             jobs.append(o)
-        two = duel or ((not barrier) and rng.random() < 0.3)
+        # one callback waits until a LATER job of the batch has been entered: with at least two workers a free
+        # worker must pick that job up from the queue (m = 0 or m >= 2), whatever the queue order
+        if (not barrier) and (not duel) and nj >= 3 and (m == 0 or m >= 2) and rng.random() < 0.35:
+            i = rng.randrange(nj - 1)
+            jobs[i]["wait_for"] = rng.randrange(i + 1, nj)
+            jobs[i].pop("raises", None)
+        two = duel or ((not barrier) and not any("wait_for" in j for j in jobs) and rng.random() < 0.3)
         force = rng.random() < 0.3
         scn = {"tz": None, "n_threads": m, "clock0": clock, "advance": 3 * S, "jobs": jobs, "ops": [],
                "max_exec": rng.choice([0, 0, 2]) if force else 0,
@@ -58,6 +65,7 @@ def runner(scn):
         s2.pop("barriers", None)
         for j in s2["jobs"]:
             j.pop("barrier", None)
+            j.pop("wait_for", None)
         s2["sched"] = {"kind": "random", "seed": 1}
         obs[0]["_seq"] = c14.run_impl(s2)
     return lines, impl, obs
